@@ -94,6 +94,10 @@ func init() {
 				return s
 			}
 			s.Cfg = genCharCfg(r, charOpt{maxLen: 24, maxReq: 6})
+			if r.Chance(0.2) {
+				s.Cfg.Length = pick(r, []int{25, 36, 40, 64, 100, 118, 128, 150, 200})
+				s.N = 3
+			}
 			return s
 		},
 		Decode: decodeInto[C03Spec],
@@ -205,6 +209,18 @@ func runC03(c *Ctx, si interface{}) {
 		ts.Seed = mix(s.Tape.Seed, k)
 		if !one(genOp(NewTape(ts), rec), "walk") {
 			return
+		}
+	}
+	// constant streams: every draw picks the same alphabet position, so (with two or more
+	// requirements, or a requirement the repeated character does not meet) every candidate fails;
+	// whatever Generate answers, a returned password must still satisfy the recipe
+	if len(m.Req) > 0 && len(m.A) > 0 && s.Tape.Seed%3 == 0 {
+		for _, def := range []string{"zero", "last"} {
+			res := genOp(NewTape(TapeSpec{Mode: "choice", Default: def}), rec)
+			c.Probe("constant_choice_stream", 1)
+			if !one(res, "constant stream ("+def+" index at every draw)") {
+				return
+			}
 		}
 	}
 	c.Sample(map[string]interface{}{"recipe": s.Cfg.String(), "alphabet_size": len(m.A), "required_sets": len(m.Req)})
